@@ -329,6 +329,9 @@ def to_array(itp, v, dtype=None):
                     out = T.ite(T.eq(k, j), vals[j], out)
                 return out
         return SArr.fresh((len(subs),) + tuple(shp), elem, dt, nan)
+    from .values import SList as _SList
+    if isinstance(v, _SList):
+        v = SSeq(v.length, v.elem, "list")
     if isinstance(v, SSeq):
         # sequence of scalars of symbolic length
         def elem(idx):
